@@ -476,6 +476,34 @@ func local() []cat.Program {
 				`<ul><li v-for="it in items" :data-a="abs(it)"><b v-if="trim(it) == '[beta]'">{{ trim(it) }}</b><em v-else>{{ abs(it) }}</em></li></ul><u>{{ who }} {{ sum(items) }}</u>` + end},
 			Data: map[string]vals.V{"who": s("xbnWHO"), "items": anys(s("beta"), s("alpha"), s("gamma"))}},
 
+		// loops over maps of EVERY key kind and over the other spellings of the same data: map[any]any
+		// with int / string / bool / mixed keys, map[float64], map[bool], maps of named key types,
+		// arrays next to slices, YAML front-matter and a data file with plain numeric, date-like,
+		// boolean and mixed keys, flow and block mappings, quoted and plain keys
+		{Name: "x-map-keykinds", FileOnly: true, Canary: "xmkWHO", Feat: []string{"map-loop", "map-key-kinds", "many-engines", "front-matter", "config-data"},
+			Files: map[string]string{
+				"page.vuego": "---\nyears:\n  2014: y14\n  2009: y09\n  2021: y21\n  1999: y99\n  2003: y03\ndates:\n  2024-01-02: d2\n  2023-12-31: d31\n  2024-01-01: d1\n" +
+					"flags:\n  true: yes-value\n  false: no-value\nmixed:\n  1: one\n  two: zwei\n  3.5: float\n  true: bool\n  10: ten\nflow: {b: fb, a: fa, c: fc, 7: f7, 3: f3}\n" +
+					"quoted:\n  \"2014\": q14\n  \"2009\": q09\n  \"1999\": q99\nlistflow: [l3, l1, l2]\nlistblock:\n  - b3\n  - b1\n---\n" +
+					`<ul><li v-for="y in years">{{ y }}</li></ul><ul><li v-for="(i, d) in dates">{{ i }}:{{ d }}</li></ul><p v-for="f in flags">{{ f }}</p><p v-for="x in mixed">{{ x }}</p>` +
+					`<i v-for="x in flow">{{ x }}</i><b v-for="q in quoted">{{ q }}</b><u v-for="l in listflow">{{ l }}</u><u v-for="l in listblock">{{ l }}</u>` +
+					`<ol><li v-for="v in anyint">{{ v }}</li></ol><ol><li v-for="v in anystr">{{ v }}</li></ol><ol><li v-for="v in anybool">{{ v }}</li></ol><ol><li v-for="v in anymixed">{{ v }}</li></ol>` +
+					`<dl><dt v-for="v in floats">{{ v }}</dt><dd v-for="v in bools">{{ v }}</dd><dt v-for="v in ids">{{ v }}</dt><dd v-for="v in codes">{{ v }}</dd></dl>` +
+					`<em v-for="a in arr">{{ a }}</em><em v-for="a in arr2">{{ a }}</em><s v-for="c in cfgyears">{{ c }}</s><s v-for="c in cfgflags">{{ c }}</s><p>{{ who }}</p>` + end,
+				"data/keys.yml": "cfgyears:\n  2014: c14\n  2009: c09\n  2021: c21\n  1999: c99\ncfgflags:\n  yes: cy\n  no: cn\n  true: ct\n",
+			},
+			Data: map[string]vals.V{"who": s("xmkWHO"),
+				"anyint":   loopMap(kMapAny, map[string]vals.V{"i:2014": s("a14"), "i:2009": s("a09"), "i:2021": s("a21"), "i:7": s("a7"), "i:-3": s("a-3")}),
+				"anystr":   loopMap(kMapAny, map[string]vals.V{"s:pear": s("sp"), "s:apple": s("sa"), "s:fig": s("sf"), "s:Zed": s("sz")}),
+				"anybool":  loopMap(kMapAny, map[string]vals.V{"b:true": s("bt"), "b:false": s("bf")}),
+				"anymixed": loopMap(kMapAny, map[string]vals.V{"i:1": s("m1"), "s:two": s("m2"), "f:3.5": s("m35"), "b:true": s("mt"), "i:10": s("m10"), "s:1": s("ms1"), "s:true": s("mst")}),
+				"floats":   loopMap(kMapFloat, map[string]vals.V{"f:1.5": s("f15"), "f:-2": s("f-2"), "f:10": s("f10"), "f:0.25": s("f025")}),
+				"bools":    loopMap(kMapBool, map[string]vals.V{"b:true": s("T"), "b:false": s("F")}),
+				"ids":      loopMap(kMapID, map[string]vals.V{"i:30": s("id30"), "i:4": s("id4"), "i:100": s("id100")}),
+				"codes":    loopMap(kMapCode, map[string]vals.V{"s:zz": s("czz"), "s:aa": s("caa"), "s:mm": s("cmm")}),
+				"arr":      vals.List("[3]int", n(3), n(1), n(2)),
+				"arr2":     vals.List("[2]string", s("x2"), s("x1"))}},
+
 		// retype twins: DIFFERENT files with the SAME template text (so the same expression texts)
 		// whose data gives the same names differently typed values; on the shared engine they meet
 		// in both orders. Only expressions that are valid for every typing are used here.
